@@ -49,6 +49,7 @@ fn check_fmt<T: LInt, const FMT: u128>(cx: &mut Cx, v: T, radix: u32, plus: bool
     let bound = if radix == 10 { T::FORMATTED_SIZE_DECIMAL } else { T::FORMATTED_SIZE } + if plus { 1 } else { 0 };
     let place = place_for(cx.n);
     let opts = &cx.opts;
+    vharness::guard::set_crumb_bits(T::NAME, mag as u64 ^ ((radix as u64) << 56));
     let buf = cx.arena.output(bound, place, cx.n as u8);
     let base = buf.as_ptr() as usize;
     let r = report::catch(|| {
@@ -71,6 +72,7 @@ fn check_default<T: LInt>(cx: &mut Cx, v: T) {
     cx.n += 1;
     let want = format!("{v}").into_bytes();
     let place = place_for(cx.n);
+    vharness::guard::set_crumb_bits(T::NAME, v.split().1 as u64);
     let buf = cx.arena.output(T::FORMATTED_SIZE_DECIMAL, place, cx.n as u8);
     let base = buf.as_ptr() as usize;
     let r = report::catch(|| {
